@@ -73,7 +73,8 @@ def to_rdflib(t):
     if k == "lit":
         return rdflib.Literal(t[1], lang=t[2], datatype=rdflib.URIRef(t[3]) if t[3] else None)
     if k == "default":
-        return DATASET_DEFAULT_GRAPH_ID
+        # an EQUAL but not identical URIRef (what a caller who rebuilds quads hands over)
+        return rdflib.URIRef(str(DATASET_DEFAULT_GRAPH_ID))
     raise TypeError(t)
 
 
